@@ -352,16 +352,84 @@ pub fn deep_cases(ctx: &SpecCtx, comp: &mut Compiled, r: &mut TestRunner, n: usi
             // probe with 2 000 repetitions first: a quadratic cascade shows there already
             let probe = build(2_000);
             let before = comp.steps;
-            let _ = oracle::model::run_model(comp, &probe);
-            if comp.steps - before > 30_000 {
+            let pm = oracle::model::run_model(comp, &probe);
+            let probe_text: usize = pm.trace.a.log.iter().map(|e| e.text.as_ref().map(|t| t.len()).unwrap_or(0)).sum();
+            // also skip what would give 10^5 items or (with continue_) quadratic amounts of
+            // logged match text on the full-length input
+            if comp.steps - before > 30_000 || pm.trace.a.items.len() > 60 || pm.trace.a.log.len() > 60 || probe_text > 30_000 {
                 continue;
             }
             let case = build(66_000 + (t.len() * 311) % 4_000);
             let before = comp.steps;
-            let _ = oracle::model::run_model(comp, &case);
-            if comp.steps - before <= max_steps {
+            let m = oracle::model::run_model(comp, &case);
+            // few items: the long run must be one lexeme (or one failed attempt), not 10^5 tokens
+            let text_bytes: usize = m.trace.a.log.iter().map(|e| e.text.as_ref().map(|t| t.len()).unwrap_or(0)).sum();
+            if comp.steps - before <= max_steps && m.trace.a.items.len() <= 2_000 && m.trace.a.log.len() <= 2_000 && text_bytes <= 1_000_000 {
                 out.push(case);
             }
+        }
+    }
+    out
+}
+
+/// Definitions built for rewinds over more than 65 536 characters: `h = 0`, `h c* t = 1` (or the
+/// same as a right context, `h > c* t`), and a rule for `c`; h, c, t pairwise different.
+pub fn deep_rewind_specs(r: &mut TestRunner, n: usize) -> Vec<(&'static str, Spec)> {
+    let letters = ['a', 'b', 'c', 'd', 'e', 'é', '京'];
+    let pick = proptest::sample::subsequence(letters.to_vec(), 3);
+    let mut out = vec![];
+    for i in 0..n {
+        let mut v = sample(&pick, r);
+        v.rotate_left(i % 3);
+        let (h, c, t) = (Re::Char(v[0]), Re::Char(v[1]), Re::Char(v[2]));
+        let long = oracle::re::cat(oracle::re::star(c.clone()), t.clone());
+        let mut rules = match i % 3 {
+            0 => vec![(h.clone(), None), (oracle::re::cat(h.clone(), long), None)],
+            1 => vec![(oracle::re::cat(h.clone(), long), None), (h.clone(), None)],
+            _ => vec![(h.clone(), Some(long)), (h.clone(), None)],
+        };
+        // the repeated character is lexed as ONE token after the rewind (a token per character
+        // would mean 10^5 items per case and gigabytes of traces per definition)
+        rules.push((plus(c.clone()), None));
+        rules.push((t, None));
+        let mut s = crate::props2::simple_spec(rules, i % 2 == 1, vec![]);
+        if i % 4 == 3 {
+            for rule in s.rules_mut() {
+                rule.kind = Kind::Ret;
+            }
+        }
+        out.push(("deep-rewind", s));
+    }
+    out
+}
+
+/// Inputs for `deep_rewind_specs`: h, then c repeated 65 535 … 70 000 times, then t / another
+/// character / nothing.
+pub fn deep_rewind_cases(ctx: &SpecCtx) -> Vec<Case> {
+    let rules = ctx.spec.rules();
+    if rules.len() < 3 {
+        // a shrunk definition
+        return vec![];
+    }
+    let (h, c, t) = match (rules.iter().find_map(|r| if let Re::Char(x) = r.re { Some(x) } else { None }), &rules[rules.len() - 2].re, &rules[rules.len() - 1].re) {
+        (Some(h), Re::Char(c), Re::Char(t)) => (h, *c, *t),
+        (Some(h), Re::Plus(p), Re::Char(t)) => match **p {
+            Re::Char(c) => (h, c, *t),
+            _ => return vec![],
+        },
+        _ => return vec![],
+    };
+    let mut out = vec![];
+    for n in [65_535usize, 65_536, 65_537, 70_000] {
+        for end in [Some(t), Some(h), None] {
+            let mut s = String::new();
+            s.push(h);
+            s.extend(std::iter::repeat(c).take(n));
+            if let Some(e) = end {
+                s.push(e);
+                s.push(h);
+            }
+            out.push(gen::simple_case(s, vec![]));
         }
     }
     out
@@ -498,6 +566,7 @@ impl Prop for C01 {
             rules.push((Re::Char(' '), None));
             out.push(("many-tables", crate::props2::simple_spec(rules, i % 2 == 1, vec![])));
         }
+        out.extend(deep_rewind_specs(r, tier.pick(6, 18)));
         out
     }
     fn adjust_spec(&self, mut spec: Spec, r: &mut TestRunner) -> Spec {
@@ -529,6 +598,9 @@ impl Prop for C01 {
             },
         );
         cs.extend(long_cases(ctx, c, r, 2, 400, 400_000));
+        if ctx.profile == "deep-rewind" {
+            cs.extend(deep_rewind_cases(ctx));
+        }
         if ctx.idx % 4 == 0 {
             // a single attempt that reads more than 65 536 characters and is rewound
             cs.extend(deep_cases(ctx, c, r, 2, 600_000));
@@ -800,6 +872,35 @@ impl Prop for C04 {
                 (Re::Char(';'), None),
             ];
             out.push(("big-ctx", crate::props2::simple_spec(rules, i % 3 == 0, vec![])));
+        }
+        // rules that END in a class (accepting transitions on range pieces), 2-4 of them with
+        // overlapping classes, some with right contexts: the pieces of the common refinement
+        // carry different lists of candidate rules, one list often a prefix of another
+        let bound = proptest::sample::select(('a'..='p').collect::<Vec<char>>());
+        for i in 0..tier.pick(60, 400) {
+            let n = 2 + i % 3;
+            let mut rules = vec![];
+            for j in 0..n {
+                let (x, y) = (sample(&bound, r), sample(&bound, r));
+                let (lo, hi) = (x.min(y), x.max(y));
+                let mut class = Re::Set(vec![oracle::re::SetItem::R(lo, hi)]);
+                if (i + j) % 4 == 3 {
+                    class = Re::Set(vec![oracle::re::SetItem::R(lo, hi), oracle::re::SetItem::R('s', 'v')]);
+                }
+                let re = match (i / 3 + j) % 3 {
+                    0 => class,
+                    1 => cat(Re::Char('x'), class),
+                    _ => cat(oracle::re::opt(Re::Char('x')), class),
+                };
+                let ctx_re = match (i + 2 * j) % 5 {
+                    0 | 1 => Some(Re::Char('!')),
+                    2 => Some(Re::Set(vec![oracle::re::SetItem::R('a', 'h')])),
+                    _ => None,
+                };
+                rules.push((re, ctx_re));
+            }
+            rules.push((Re::Char('!'), None));
+            out.push(("class-accept-lists", crate::props2::simple_spec(rules, i % 2 == 0, vec![])));
         }
         out
     }
@@ -1294,12 +1395,18 @@ impl Prop for C09 {
             (p_real(), n),
         ]
     }
+    fn custom_specs(&self, tier: Tier, r: &mut TestRunner) -> Vec<(&'static str, Spec)> {
+        deep_rewind_specs(r, tier.pick(9, 27))
+    }
     fn cases(&self, ctx: &SpecCtx, _c: &mut Compiled, r: &mut TestRunner, tier: Tier) -> Vec<Case> {
         let mut plan = std_plan(tier, true);
         plan.exhaustive_cap = tier.pick(400, 3000);
         plan.guided = tier.pick(150, 600);
         plan.wild = tier.pick(150, 600);
         let mut cs = cases_from(ctx, r, &plan);
+        if ctx.profile == "deep-rewind" {
+            cs.extend(deep_rewind_cases(ctx));
+        }
         // all constructors
         let ctors = gen::ctor_strategy();
         for c in cs.iter_mut() {
